@@ -27,7 +27,7 @@ theorem preE_sc (w : W) (rid : Nat) : SC w (preE w rid) :=
   ((SC.modR w rid exR).trans (SC.modK _ _)).trans (SC.when _ _ _ (SC.pushUnLockAof _ _ _ _ _ _))
 
 /-- the hold `rid` ends: the state after `RemoveLock` -/
-theorem expire_live {w : W} (h : WS w) (rid : Nat) (hT : w.k.hasE rid = true) (hl : (w.k.getR rid).expried = false) :
+theorem expire_live {w : W} (h : WSt w) (rid : Nat) (hT : w.k.hasE rid = true) (hl : (w.k.getR rid).expried = false) :
     Live ((preE w rid).modK (·.removeLock rid)) (endK (Key.abs w.k) (holdOf w.k rid)) ∧
     (((preE w rid).modK (·.removeLock rid)).k.hasRec rid ∧ (((preE w rid).modK (·.removeLock rid)).k.getR rid).eSched.isSome = true ∧
       (((preE w rid).modK (·.removeLock rid)).k.getR rid).depth = 0) := by
@@ -130,7 +130,7 @@ theorem expire_live {w : W} (h : WS w) (rid : Nat) (hT : w.k.hasE rid = true) (h
 theorem endK_fl (k : Engine.Key) (x : Engine.Hold) (h : k.waited = true → k.waiters ≠ []) : (endK k x).waited = true → (endK k x).waiters ≠ [] := h
 
 /-- **`doExpried` of a live hold**, working-state level: the state before the wake pass -/
-theorem fireE_rel {w : W} (h : WS w) (a : Engine.DB) (sc : Scal a w.db) (out1 : List Engine.Reply) (ho : w.out.map (·.r) = out1) (rid : Nat)
+theorem fireE_rel {w : W} (h : WSt w) (a : Engine.DB) (sc : Scal a w.db) (out1 : List Engine.Reply) (ho : w.out.map (·.r) = out1) (rid : Nat)
     (hT : w.k.hasE rid = true) (hl : (w.k.getR rid).expried = false) :
     Rel (((((preE w rid).modK (·.removeLock rid)).dropE rid).ctr (ctrE (w.k.getR rid).depth)).reply
         { (w.k.getR rid).cmd with conn := (w.k.getR rid).conn } Engine.RESULT_EXPRIED 0
